@@ -21,7 +21,9 @@ are compiled to LLVM IR with the backend's flags and executed side by side by ll
   layout      partial structs ('...;'): the numbers the C compiler reports (sizeof, alignof, offsets, sizes) reach the
               backend unchanged on both routes: vengine_cpy/_gen `_loaded_*_struct` (pysym on the real Python code with a
               symbolic layout list) sets tp.fixedlayout to exactly those numbers, as do_realize_lazy_struct does for the
-              Recompiler (C12); complete structs: mismatch <=> VerificationError.
+              Recompiler (C12); complete structs (layout-check): verify() raises VerificationError iff some reported number
+              differs from what cffi computed (symbolic numbers on both sides) -- the condition under which set_source()'s
+              module raises (C12).
 """
 import os, sys, json, subprocess
 import z3
@@ -109,6 +111,8 @@ def generated_modules():
         src.append('#define U%d sym_%d' % (i, i))
         cdef.append('static const %s S%d;' % (t, i))
         src.append('#define S%d sym_%d' % (i, i))
+    cdef.append('enum en { EA = 42, EB = -5, EC = 0 };')
+    src.append('#define EA sym_2\n#define EB sym_3\n#define EC sym_1\nenum en { EN_DUMMY };')
     code = '''
 import sys
 sys.path.insert(0, %r)
@@ -376,6 +380,87 @@ def const_worker(args):
     return hutil.export(chk)
 
 
+def enum_worker(args):
+    """enum en { EA = 42, EB = -5, EC = 0 } with three independent symbolic compiler values: verify()'s check function accepts
+    iff the C source matches the cdef, and then set_source()'s enumerator constants have the same values"""
+    prop, tier, kind = args
+    chk = hutil.sub_check(prop, tier)
+    back = irgen.backend()
+    rec, cpy, gen = generated_modules()
+    label = 'cpy:enum'
+    SYM = {'EA': (2, 42), 'EB': (3, -5), 'EC': (1, 0)}
+
+    def ext(ex, name, g, m):
+        if name.startswith('sym_'):
+            k = int(name[4:])
+            sz = CTYPES[k][1]
+            r = ex.mem.alloc(sz, '@' + name, 'global')
+            ex.mem.store(r.base, z3.BitVec('compiler_value_%d' % k, 8 * sz), sz)
+            return r
+        return pystubs.extern_global(ex, name, g, m)
+    st = pystubs.stubs()
+    st['@*'] = ext
+    st['sprintf'] = lambda e, dst, fmt, *a: (e.mem.store(dst, 0, 1), 0)[1]
+    st['snprintf'] = lambda e, dst, n, fmt, *a: (e.mem.store(dst, 0, 1), 0)[1]
+    ex = llsym.Executor([rec, cpy, back], st, loop_bound=16)
+    bl = back.struct_layout(('named', 'struct.builder_c_t'))
+    ctxl = back.struct_layout(('named', 'struct._cffi_type_context_s'))
+    gl = back.struct_layout(('named', 'struct._cffi_global_s'))
+
+    def h(ex):
+        py = pystubs.PyEnv(ex)
+        bind_exports(ex, back, ['_cffi_exports', '_cffi_exports.v'])
+        obj = ex.mem.alloc(64, 'exc:FFIError', 'pyobj', fill=0)
+        ex.mem.store(obj.base, 1 << 32, 8)
+        ex.mem.store(ex.gaddr('FFIError'), obj.base, 8)
+        inputs = dict(('compiler_value_%d' % k, z3.BitVec('compiler_value_%d' % k, 8 * CTYPES[k][1])) for k, _ in SYM.values())
+        ok_all, vals = True, {}
+        for nm, (k, want) in sorted(SYM.items()):
+            builder = ex.mem.alloc(bl[1], 'builder', 'heap', fill=0)
+            globs = ex.mem.alloc(gl[1], 'globals[1]', 'heap', fill=0)
+            nmr = ex.mem.alloc(8, 'name', 'heap', fill=0)
+            ex.mem.store(globs.base + gl[0][0], nmr.base, 8)
+            ex.mem.store(globs.base + gl[0][1], ex.faddr('_cffi_const_' + nm), 8)
+            ex.mem.store(builder.base + bl[0][0] + ctxl[0][1], globs.base, 8)
+            ex.mem.store(builder.base + bl[0][0] + ctxl[0][6], 1, 4)
+            r1 = simp(ex.call('realize_global_int', [builder.base, 0]))
+            if not (is_c(r1) and r1 != 0 and py.exc is None):
+                ok_all = False
+            else:
+                vals[nm] = r1
+            py.exc = None
+        for f_ in list(cpy.functions):
+            if f_.startswith('_cffi_const_') or (f_.startswith('_cffi_e_') and f_ != '_cffi_e_enum_en.v'):
+                ex.stubs[f_] = lambda e, lib: 0
+        ex.stubs['_cffi_setup_custom.v'] = lambda e, lib: 0
+        verr = ex.mem.alloc(64, 'exc:VerificationError', 'pyobj', fill=0)
+        ex.mem.store(verr.base, 1 << 32, 8)
+        ex.mem.store(ex.gaddr('_cffi_VerificationError.v'), verr.base, 8)
+        r2 = simp(ex.call('_cffi_e_enum_en.v', [py.new_opaque('lib')]))
+        ok2 = is_c(r2) and llsym.signed(r2, 32) >= 0 and py.exc is None
+        # the statement is about a C source that MATCHES the cdef: set_source() takes an enumerator's value from the compiler
+        # without comparing it with the cdef (by design), verify() insists on equality
+        C = lambda k: z3.BitVec('compiler_value_%d' % k, 8 * CTYPES[k][1])
+        ext_ = lambda k: z3.SignExt(W - 8 * CTYPES[k][1], C(k))
+        matches = z3.And(*[ext_(k) == V_const(want) for nm, (k, want) in SYM.items()])
+        hutil.witness(chk, ex, label + (':verify-accepts' if ok2 else ':verify-rejects'))
+        hutil.discharge(chk, ex, label + ':verify-accepts-iff-the-source-matches-the-cdef', z3.BoolVal(ok2) == matches, inputs)
+        if ok2:
+            hutil.discharge(chk, ex, label + ':matching-source=>set_source-accepts-too', ok_all, inputs)
+            if ok_all:
+                hutil.discharge(chk, ex, label + ':matching-source=>same-values-(the-cdef-values)',
+                                z3.And(*[py.info(vals[nm])['V'] == V_const(want) for nm, (k, want) in SYM.items()]), inputs)
+        else:
+            hutil.discharge(chk, ex, label + ':rejected-with-VerificationError', py.exc == 'VerificationError', inputs)
+
+    res = ex.explore(h, max_paths=2000)
+    hutil.finish_explore(chk, ex, res, label)
+    if not chk.witnesses:
+        chk.inconc(label + ': no path reached an obligation')
+    chk.functions = irgen.func_info(rec, sorted(ex.called)) + irgen.func_info(cpy, sorted(ex.called))
+    return hutil.export(chk)
+
+
 def genconst_worker(args):
     """generic engine: C shim (llsym) + VGenericEngine._load_constant (pysym)"""
     prop, tier, kind, i = args
@@ -519,6 +604,96 @@ def layout_worker(args):
     return hutil.export(chk)
 
 
+def layoutcheck_worker(args):
+    """verify(): a complete struct is accepted iff every number the C compiler reports equals what cffi computed from the cdef
+    (the same condition under which set_source()'s module raises: C12) -- both engines, symbolic numbers on both sides"""
+    prop, tier, kind, engine, nfields = args
+    chk = hutil.sub_check(prop, tier)
+    sys.path.insert(0, os.path.join(common.REPO, 'src'))
+    from cffi import vengine_cpy, vengine_gen, model
+    from cffi.error import VerificationError
+    label = 'layout-check:%s:%d-fields' % (engine, nfields)
+    px = pysym.PyExplorer()
+
+    def hp(px):
+        comp = [px.sym_int('compiler_%d' % k, 'int') for k in range(2 + 2 * nfields)]
+        mine = [px.sym_int('cffi_%d' % k, 'int') for k in range(2 + 2 * nfields)]
+        for n in comp + mine:
+            px.assume(z3.And(n.t >= 0, n.t <= (1 << 40)))
+        names = ['f%d' % k for k in range(nfields)]
+        ftypes = [model.PrimitiveType('int') for _ in range(nfields)]
+        tp = model.StructType('s', names, ftypes, [-1] * nfields)
+
+        class BT(object):
+            def __init__(self, what):
+                self.what = what
+
+        class FFI(object):
+            def _typeof_locked(self, s):
+                return (s,)
+
+            def _get_cached_btype(self, t):
+                if t is tp:
+                    return BT('struct')
+                return BT(('field', [i for i, f in enumerate(ftypes) if f is t][0]))
+
+            def sizeof(self, bt):
+                return mine[0] if bt.what == 'struct' else mine[3 + 2 * bt.what[1]]
+
+            def alignof(self, bt):
+                return mine[1]
+
+            def offsetof(self, bt, fname):
+                return mine[2 + 2 * names.index(fname)]
+        if engine == 'cpy':
+            eng = vengine_cpy.VCPythonEngine.__new__(vengine_cpy.VCPythonEngine)
+
+            class Module(object):
+                def _cffi_layout_struct_s(self):
+                    return list(comp)
+            module = Module()
+        else:
+            eng = vengine_gen.VGenericEngine.__new__(vengine_gen.VGenericEngine)
+
+            class Module(object):
+                def load_function(self, BFunc, name):
+                    return lambda k: comp[k] if k < len(comp) else -1
+            module = Module()
+        eng.ffi = FFI()
+        eng._struct_pending_verification = {}
+        eng._loading_struct_or_union(tp, 'struct', 's', module)
+        try:
+            eng._loaded_struct_or_union(tp)
+            outcome = 'accepted'
+        except VerificationError:
+            outcome = 'VerificationError'
+        except llsym.Unsupported as e:
+            # check() formats its message with '%d' before raising: the only int() of a symbolic number in this code
+            # (formatting is not the subject)
+            if 'int() of a symbolic int' not in str(e):
+                raise
+            outcome = 'VerificationError'
+        hutil.witness(chk, px, label + ':' + outcome)
+        inputs = dict(('compiler_%d' % k, n.t) for k, n in enumerate(comp))
+        inputs.update(dict(('cffi_%d' % k, n.t) for k, n in enumerate(mine)))
+        differs = [comp[0].t != mine[0].t, comp[1].t != mine[1].t]
+        for k in range(nfields):
+            differs.append(comp[2 + 2 * k].t != mine[2 + 2 * k].t)
+            # a reported field size of 0 means "unknown" (open array): not compared
+            differs.append(z3.And(comp[3 + 2 * k].t != 0, comp[3 + 2 * k].t != mine[3 + 2 * k].t))
+        any_diff = z3.Or(*differs)
+        if outcome == 'accepted':
+            hutil.discharge(chk, px, label + ':accepted=>every-number-agrees', z3.Not(any_diff), inputs)
+        else:
+            hutil.discharge(chk, px, label + ':rejected=>some-number-differs', any_diff, inputs)
+    res = px.explore(hp, max_paths=2000)
+    hutil.finish_explore(chk, px, res, label)
+    if not chk.witnesses:
+        chk.inconc(label + ': no path reached an obligation')
+    chk.functions = [{'name': n, 'file': 'src/cffi/vengine_%s.py' % engine} for n in ('_loading_struct_or_union', '_loaded_struct_or_union')]
+    return hutil.export(chk)
+
+
 def dispatch(args):
     k = args[2]
     if k in ('int', 'bool', 'double'):
@@ -529,8 +704,12 @@ def dispatch(args):
         return const_worker(args)
     if k == 'genconst':
         return genconst_worker(args)
+    if k == 'enum':
+        return enum_worker(args)
     if k == 'layout':
         return layout_worker(args)
+    if k == 'layoutcheck':
+        return layoutcheck_worker(args)
     if k == 'c13':
         from harness import C13
         return C13.wrapper_worker((args[0], args[1]) + tuple(args[3]))
@@ -556,15 +735,18 @@ def run(chk):
         for form in list(range(len(CDEF_VALUES))) + ['U', 'S']:
             cases.append(P + ('const', i, form))
         cases.append(P + ('genconst', i))
+    cases.append(P + ('enum',))
     for engine in ('cpy', 'gen'):
         for n in range(0, 3 if quick else 5):
             cases.append(P + ('layout', engine, n))
+            cases.append(P + ('layoutcheck', engine, n))
     chk.bounds = {'functions': 'identity functions over %d integer types/typedefs, _Bool, float, double x every Python int / double; two multi-argument functions' % len(INT_TYPES),
                   'constants': '%d integer types x {#define K <v> for v in %r, #define K ..., static const T K} x every compiler value' % (len(CTYPES), CDEF_VALUES),
+                  'enums': 'one enum of three enumerators (42, -5, 0) with independent symbolic compiler values (int, long, short)',
                   'layout': 'partial structs of 0..%d fields, every reported number in [0, 2^62]' % (2 if quick else 4)}
     chk.outside = ['pointer, char, struct, enum and callback arguments; global variables; non-integer constants',
                    'compiling, importing and dlopen()ing the artefacts (the real replays do that for one function and two constants)',
-                   'complete (non-partial) struct checks of verify(); struct layout computation itself (C01/C12)',
+                   'bit-fields in verify()\'s struct checks (ignored there by design); struct layout computation itself (C01/C12)',
                    'libffi (the generic engine calls through it: C13)']
     chk.assume('both C texts are produced by the working tree at run time and compiled with the backend\'s flags; _cffi_exports[] of both '
                'modules is bound to the backend\'s cffi_exports[] as their init functions do')
